@@ -68,8 +68,9 @@ impl FunctionMarkupPass {
                     let rd = With::new(Register::X0, info.clone());
                     // Not a name that a label in the source can have
                     let name = With::new(LabelString::new("<return>"), info.clone());
+                    // The jump stands where the return stood
                     let new_node =
-                        ParserNode::new_jump_link(inst, rd, name, prev_ret.node().token().clone());
+                        ParserNode::new_jump_link(inst, rd, name, found_ret.node().token().clone());
                     #[allow(unused_must_use)]
                     found_ret.set_node(new_node);
                 }
